@@ -339,3 +339,20 @@ Theorem C09_text_cut_example :
   ok_args (map (fun s => (s, AStr (repeat 10 97))) long_specs) (show_args_b [] long_specs p) = true.
 Proof. exact long_text_cut. Qed.
 Print Assumptions C09_text_cut_example.
+
+(* ---------------------------------------------------------------- structs in SSE registers *)
+Theorem C09_struct_sse_whole :
+  let sp := {| s_idx := 1; s_fmt := FStruct; s_size := 16; s_type := TReg; s_u := 102%Z; s_regs := [101%Z; 102%Z]; s_name := [] |} in
+  let inp := {| regs := []; xmm := [0x3ff8000000000001; 0x4002000000000002]; stk := []; rets := []; strs := []; wrds := [] |} in
+  payload (run 0 inp false [sp]) = Some (le_bytes 8 0x3ff8000000000001 ++ le_bytes 8 0x4002000000000002).
+Proof. exact struct_sse_whole. Qed.
+Print Assumptions C09_struct_sse_whole.
+
+Theorem C09_struct_sse_legacy_refuted :
+  let sp := {| Legacy.s_idx := 1; Legacy.s_fmt := Legacy.FStruct; Legacy.s_size := 16; Legacy.s_type := Legacy.TReg;
+               Legacy.s_u := 102%Z; Legacy.s_regs := [101%Z; 102%Z]; Legacy.s_name := [] |} in
+  let inp := {| Legacy.regs := []; Legacy.xmm := [0x3ff8000000000001; 0x4002000000000002]; Legacy.stk := []; Legacy.rets := [];
+                Legacy.strs := []; Legacy.wrds := [] |} in
+  Legacy.payload (Legacy.run 0 inp false [sp]) = Some [1; 0; 0; 0; 0; 0; 0; 0; 2; 0; 0; 0; 0; 0; 0; 0].
+Proof. exact LegacyProofs.struct_sse_refuted. Qed.
+Print Assumptions C09_struct_sse_legacy_refuted.
